@@ -59,29 +59,53 @@ var emittedImports = []string{
 	"gopkg.in/yaml.v3", "github.com/go-viper/mapstructure/v2", core.ModPath + "/pkg/types",
 }
 
+// DepsDir is the checker-side module from which the third-party packages emitted code may import are loaded.
+var DepsDir = ""
+
 func loadImports(repo string) (map[string]*types.Package, error) {
 	impOnce.Do(func() {
-		cfg := &packages.Config{
-			Mode: packages.NeedName | packages.NeedTypes | packages.NeedImports | packages.NeedDeps,
-			Dir:  repo + "/tests",
-			Env:  core.LoadEnv(),
-		}
-		pkgs, err := packages.Load(cfg, emittedImports...)
-		if err != nil {
-			impErr = err
-			return
-		}
 		impPkgs = map[string]*types.Package{}
-		packages.Visit(pkgs, nil, func(p *packages.Package) {
-			if p.Types != nil {
-				impPkgs[p.PkgPath] = p.Types
+		load := func(dir string, patterns []string) {
+			cfg := &packages.Config{
+				Mode: packages.NeedName | packages.NeedTypes | packages.NeedImports | packages.NeedDeps,
+				Dir:  dir,
+				Env:  core.LoadEnv(),
 			}
-			for _, e := range p.Errors {
-				if impErr == nil && strings.Contains(e.Msg, "cannot find") {
-					impErr = fmt.Errorf("%s", e.Msg)
+			pkgs, err := packages.Load(cfg, patterns...)
+			if err != nil {
+				if impErr == nil {
+					impErr = err
 				}
+				return
 			}
-		})
+			packages.Visit(pkgs, nil, func(p *packages.Package) {
+				if p.Types != nil && impPkgs[p.PkgPath] == nil {
+					impPkgs[p.PkgPath] = p.Types
+				}
+				for _, e := range p.Errors {
+					if impErr == nil {
+						impErr = fmt.Errorf("%s: %s", p.PkgPath, e.Msg)
+					}
+				}
+			})
+		}
+		var std, third []string
+		for _, p := range emittedImports {
+			switch {
+			case strings.HasPrefix(p, core.ModPath):
+				std = append(std, p)
+			case strings.Contains(p, "."):
+				third = append(third, p)
+			default:
+				std = append(std, p)
+			}
+		}
+		// the standard library and the module's own pkg/types from /repo (read-only, GOWORK=off) ...
+		load(repo, std)
+		// ... yaml.v3 and mapstructure from the checker-side module (same versions as /repo/tests/go.mod)
+		if DepsDir != "" {
+			load(DepsDir, third)
+		}
 		for _, want := range emittedImports {
 			if impPkgs[want] == nil && impErr == nil {
 				impErr = fmt.Errorf("package %s could not be loaded for type-checking emitted code", want)
